@@ -468,6 +468,15 @@ func TestMC_C35(t *testing.T) {
 	c35Concurrent(c)
 }
 
+// TestMCRace_C35 is the separate free-running pass (go test -race) over the
+// bodies of the concurrent TopoWrite scenarios.
+func TestMCRace_C35(t *testing.T) {
+	c := verifmc.Start(t, "C35", "model_checking")
+	defer c.Finish()
+	c35Concurrent(c)
+	verifmc.RacePassDone("C35")
+}
+
 // ---- concurrent part: two finalizers call TopoWrite at the same time -----------------
 
 type c35Ret struct {
@@ -601,5 +610,5 @@ func c35Concurrent(c *verifmc.Check) {
 	c.Set("concurrent_executions", execs)
 	c.Set("preemption_bound", bound)
 	c.Set("concurrent_return_orders", len(orders))
-	c.Require(execs >= 20 && (len(orders) >= 4 || c.Violations() > 0), "vacuous concurrent part: %d executions, %d distinct return orders", execs, len(orders))
+	c.Require(verifmc.FreeRunning() || execs >= 20 && (len(orders) >= 4 || c.Violations() > 0), "vacuous concurrent part: %d executions, %d distinct return orders", execs, len(orders))
 }
